@@ -291,7 +291,7 @@ class Gen(object):
     def stmt(self, ind, scope, depth, in_loop):
         self.stmts += 1
         rng = self.rng
-        kinds = [('assign', 10), ('use', 5), ('tuple', 2), ('chained', 1), ('annotated', 1), ('walrus', 1), ('comp', 2)]
+        kinds = [('assign', 10), ('use', 5), ('tuple', 2), ('chained', 1), ('annotated', 1), ('walrus', 2), ('comp', 2)]
         if depth < self.max_depth and self.budget():
             kinds += [('if', 6), ('for', 4), ('while', 2), ('try', 3), ('with', 2), ('def', 3), ('class', 1), ('lambda', 1), ('allpaths', 2)]
         kinds += [('import', 2)]
@@ -383,6 +383,48 @@ class Gen(object):
                 self.emit(ind, 'v(v(%s) < v() < (%s := %s))' % (self.readable(scope), n, e))
                 scope.add(n, definite=False)
             self.features.add('walrus_in_comparison_chain')
+            return
+        if r < 0.17 and self.dec_ok(2):
+            # four operands: the last one reads what the third bound
+            self.decisions += 2
+            e = self.expr(scope, avoid=(n,))
+            self.emit(ind, 'v(v() < v(%s) < (%s := %s) < v(%s))' % (self.readable(scope), n, e, n))
+            scope.add(n, definite=False)
+            self.features.add('walrus_in_comparison_chain_of_four')
+            return
+        if r < 0.27:
+            # a lambda's default is evaluated where the lambda is written: a walrus there binds in this scope,
+            # also inside conditionally evaluated parts of the default
+            e = self.expr(scope, avoid=(n,))
+            form = self.rng.choice(['plain', 'ifexp-test', 'ifexp-test', 'bool', 'ifexp-branch', 'fstring'])
+            fresh = [x for x in VARS if x not in scope.visible()]
+            if fresh and self.rng.random() < 0.5:
+                n = self.rng.choice(fresh)          # not bound before: only this binding can satisfy the reads
+                e = self.expr(scope, avoid=(n,))
+            if form == 'plain':
+                self.emit(ind, 'v((lambda a_=(%s := %s): v(a_)), %s)' % (n, e, n))
+                scope.add(n)
+            elif form == 'ifexp-test' and self.dec_ok():
+                self.decisions += 1
+                self.emit(ind, 'v(v(%s) if (lambda a_=(%s := %s): a_)() else v())' % (n, n, e))
+                scope.add(n)
+            elif form == 'bool' and self.dec_ok():
+                self.decisions += 1
+                self.emit(ind, 'v((lambda k_=(q(%s) and (%s := %s)): k_))' % (self.readable(scope), n, e))
+                scope.add(n, definite=False)
+            elif form == 'ifexp-branch' and self.dec_ok():
+                self.decisions += 1
+                self.emit(ind, 'v((lambda *, k_=((%s := %s) if q() else v()): k_))' % (n, e))
+                scope.add(n, definite=False)
+            elif form == 'fstring' and self.dec_ok():
+                self.decisions += 1
+                self.emit(ind, 'v(q(%s) and f"{(%s := %s)!r}")' % (self.readable(scope), n, e))
+                scope.add(n, definite=False)
+            else:
+                self.emit(ind, 'v((%s := %s), %s)' % (n, e, self.readable(scope)))
+                scope.add(n)
+                form = 'fallback'
+            self.features.add('walrus_' + form.replace('-', '_') + '_in_lambda_default_or_fstring')
             return
         if self.rng.random() < 0.3 and self.dec_ok(2):
             # a chain of boolean operands: a later operand reads what an earlier one bound
@@ -649,6 +691,13 @@ class Gen(object):
         def etype(e):
             # the type expression of a handler is evaluated when an exception arrives: it may read names, also ones
             # bound in the try body (c01 mode; they may be unbound when the exception comes from the first statement)
+            if self.c01 and rng.random() < 0.08 and self.dec_ok():
+                # a conditional expression with a walrus in its test inside the type expression of a handler
+                self.decisions += 1
+                t = rng.choice(VARS)
+                self.features.add('handler_type_ifexp_walrus')
+                scope.add(t, definite=False)
+                return 'et(v(%s) if (%s := v()) else v(), %s)' % (t, t, e)
             if rng.random() < 0.25:
                 tscope = Scope('handler-type', scope)
                 tscope.definite = set(pre) if not self.c01 else set(d_body)
@@ -710,7 +759,16 @@ class Gen(object):
         rng = self.rng
         a = self.pick_var(scope)
         r = rng.random()
-        if r < 0.5:
+        if r < 0.1 and self.dec_ok():
+            # the context expression binds a name in the test of a conditional expression (the with target is
+            # registered for the body before the context expression is analysed)
+            self.decisions += 1
+            t = rng.choice([n for n in VARS if n != a])
+            self.emit(ind, 'with cm(v(%s) if (%s := %s) else v()) as %s:' % (t, t, self.expr(scope, avoid=(t,)), a))
+            scope.add(t)
+            names = [a]
+            self.features.add('with_item_ifexp_walrus')
+        elif r < 0.5:
             self.emit(ind, 'with cm(%s) as %s:' % (self.readable(scope) if rng.random() < 0.5 else '', a))
             names = [a]
         elif r < 0.6:
